@@ -86,7 +86,7 @@ H("c20_leaf_lca_level_leaf_vs_node_indices", "c20_math.rs", ["C20"], "quick", un
   symbolic="a, b any distinct leaf indices <= 2^24-1", bounds="all pairs")
 for k, t in [(0, "quick"), (1, "quick"), (2, "quick"), (3, "quick"), (4, "quick"), (5, "quick"), (6, "quick"),
              (7, "thorough"), (8, "thorough"), (12, "thorough"), (24, "thorough")]:
-    H("c20_direct_copath_k%d" % k, "c20_math.rs", ["C20"], t, unwind=k + 3,
+    H("c20_direct_copath_k%d" % k, "c20_math.rs", ["C20"], t, unwind=max(k + 3, 36),
       what="direct_copath(x) is the iterated (parent, sibling) chain ending at the root; empty iff x outside the tree",
       symbolic="x any u32 <= 4n (in and outside the tree)", bounds="n = 2^%d leaves" % k)
 for k in range(0, 7):
